@@ -15,6 +15,8 @@ import KinModel.Gen.SharedWrites
 import KinModel.Gen.SharedGlobals
 import KinModel.Gen.ConstructionWrites
 import KinModel.Lemmas.C15
+import KinModel.Lemmas.C15History
+import KinModel.Lemmas.C15Sched
 namespace KinModel.Conc
 
 /-! ## A. for every footprint, every number of threads, every interleaving -/
@@ -134,6 +136,98 @@ theorem plain_write_races : RaceIn (events sigma0 [(0, .write 0 9), (1, .read 0)
 /-- … and makes the reader's observation depend on the schedule. -/
 theorem plain_write_schedule_dependent :
     readsOf 1 sigma0 [(0, .write 0 9), (1, .read 0)] ≠ readsOf 1 sigma0 [(1, .read 0), (0, .write 0 9)] := by
+  decide
+
+/-! ## A″. history / reuse: a sequence of calls on one shared document, router and process -/
+
+/-- History independence. Whatever happened before on the shared objects — ANY clean history `before`: any number of
+    earlier calls by any threads, this thread included, in any interleaving, leaving the caches warm in whatever way —
+    thread `i` observes in what follows (again interleaved with anything clean) exactly what its calls observe when
+    they are the first and only calls on the freshly loaded document `σ`. -/
+theorem call_after_any_history (k : Cfg) (i : Nat) (before during : Trace) (σ : State)
+    (hb : CleanTrace k before) (hd : CleanTrace k during) (hl : LazyInit k σ) (hco : Coherent k σ) :
+    readsOf i (finalState σ before) during = solo σ (proj i during) :=
+  schedule_independent k i during (finalState σ before) σ hd (lazy_final k before σ hb hl)
+    (final_agree k before σ σ hb hl (agree_refl k σ)) (coherent_final k before σ hb hco) hco
+
+/-- … and nothing that runs after a clean history races: a long-lived process with warm caches is as race-free as a
+    fresh one (no hypothesis on what the history did beyond its being clean). -/
+theorem race_free_after_history (k : Cfg) (before during : Trace) (σ : State)
+    (hb : CleanTrace k before) (hd : CleanTrace k during) (hl : LazyInit k σ) :
+    ¬ RaceIn (events (finalState σ before) during) :=
+  race_free k (finalState σ before) during hd (lazy_final k before σ hb hl)
+
+/-- … so the observations of a thread over a whole execution split call by call: what it saw during the history,
+    then what the later calls observe on a fresh document. -/
+theorem later_calls_observe_fresh_document (k : Cfg) (i : Nat) (before during : Trace) (σ : State)
+    (hb : CleanTrace k before) (hd : CleanTrace k during) (hl : LazyInit k σ) (hco : Coherent k σ) :
+    readsOf i σ (before ++ during) = solo σ (proj i before) ++ solo σ (proj i during) := by
+  rw [readsOf_append, call_after_any_history k i before during σ hb hd hl hco,
+      schedule_independent k i before σ σ hb hl (agree_refl k σ) hco hco]
+
+/-- A call run alone after any clean history returns what it returns as the very first call. -/
+theorem solo_after_history (k : Cfg) (hist : Trace) (call : List Act) (σ : State)
+    (hh : CleanTrace k hist) (hc : ∀ a ∈ call, cleanAct k a = true) (hl : LazyInit k σ) (hco : Coherent k σ) :
+    solo (finalState σ hist) call = solo σ call := by
+  have hct : CleanTrace k (call.map (fun a => ((0 : Nat), a))) := by
+    intro x hx
+    obtain ⟨a, ha, rfl⟩ := List.mem_map.mp hx
+    exact hc a ha
+  have h1 := call_after_any_history k 0 hist _ σ hh hct hl hco
+  have h2 := schedule_independent k 0 _ (finalState σ hist) (finalState σ hist) hct (lazy_final k hist σ hh hl)
+    (agree_refl k _) (coherent_final k hist σ hh hco) (coherent_final k hist σ hh hco)
+  rw [proj_own] at h1 h2
+  rw [← h2, h1]
+
+/-- Reuse. One goroutine performing the calls `cs` one after the other on the same document / router / Validator
+    observes in EACH call what that call observes as the first call on a fresh document: the list of verdicts of a
+    sequence is the list of the solo verdicts (operation lists of any length, any repetition). -/
+theorem sequential_reuse (k : Cfg) : ∀ (cs : List (List Act)) (σ : State),
+    (∀ c ∈ cs, ∀ a ∈ c, cleanAct k a = true) → LazyInit k σ → Coherent k σ →
+    solo σ cs.flatten = (cs.map (solo σ)).flatten
+  | [], _, _, _, _ => rfl
+  | c :: cs, σ, hc, hl, hco => by
+    have hcc : ∀ a ∈ c, cleanAct k a = true := hc c (by simp)
+    have hct : CleanTrace k (c.map (fun a => ((0 : Nat), a))) := by
+      intro x hx
+      obtain ⟨a, ha, rfl⟩ := List.mem_map.mp hx
+      exact hcc a ha
+    have hrest : ∀ c' ∈ cs, ∀ a ∈ c', cleanAct k a = true := fun c' h => hc c' (by simp [h])
+    have hflat : ∀ a ∈ cs.flatten, cleanAct k a = true := by
+      intro a ha
+      obtain ⟨c', hc', hac⟩ := List.mem_flatten.mp ha
+      exact hrest c' hc' a hac
+    simp only [List.flatten_cons, List.map_cons]
+    rw [solo_append, solo_after_history k _ cs.flatten σ hct hflat hl hco, sequential_reuse k cs σ hrest hl hco]
+
+/-- Reuse under concurrency: thread `i` performs the calls `cs` in order while any other threads do anything clean,
+    in any interleaving — every one of its calls returns its solo, first-use verdict. -/
+theorem concurrent_reuse (k : Cfg) (i : Nat) (cs : List (List Act)) (tr : Trace) (σ : State)
+    (hp : proj i tr = cs.flatten) (hc : CleanTrace k tr) (hcs : ∀ c ∈ cs, ∀ a ∈ c, cleanAct k a = true)
+    (hl : LazyInit k σ) (hco : Coherent k σ) :
+    readsOf i σ tr = (cs.map (solo σ)).flatten := by
+  rw [schedule_independent k i tr σ σ hc hl (agree_refl k σ) hco hco, hp, sequential_reuse k cs σ hcs hl hco]
+
+/-- non-vacuity of the reuse theorems: a read-back cache (cell 11, key-determined value 5), a lazily initialised cell
+    (2), two calls that both use the cache — the second call finds it warm and observes what the first observed -/
+example : (∀ c ∈ [[Act.read 0, .fillUse 11 5, .lazyInit 2 7], [.fillUse 11 5, .read 1]], ∀ a ∈ c,
+              cleanAct ⟨[11], [2], [(11, 5)]⟩ a = true) ∧
+    solo sigma0 [[Act.read 0, .fillUse 11 5, .lazyInit 2 7], [.fillUse 11 5, .read 1]].flatten = [1, 5, 7, 5, 1] ∧
+    finalState sigma0 ([[Act.read 0, .fillUse 11 5, .lazyInit 2 7]].flatten.map (fun a => (0, a))) 11 = 5 := by decide
+
+/-- History DOES matter for an unconditionally stored cache that is read back (the shape `getTypeInfo` had, and a
+    `compiledPatterns.Store` in compilePattern): after a call that stored its own value, the next call is not the
+    first call any more. -/
+theorem history_matters_for_last_writer_wins :
+    solo (finalState (fun _ => 0) [(0, .syncStore 11 1000)]) [.syncStore 11 1001, .syncRead 11]
+      = solo (fun _ => 0) [.syncStore 11 1001, .syncRead 11] ∧
+    solo (finalState (fun _ => 0) [(0, .syncStore 10 1)]) [.cacheUse 10 2] ≠ solo (fun _ => 0) [.cacheUse 10 2] := by
+  decide
+
+/-- … and for a plain write into the document (seeded C15-r3m1 run SEQUENTIALLY: the operation's parameter stored into
+    the spare slot of the path item's list stays there for the next call). -/
+theorem history_matters_for_plain_writes :
+    solo (finalState sigma0 [(0, .write (sliceCell 0 3) 7)]) [.read (sliceCell 0 3)] ≠ solo sigma0 [.read (sliceCell 0 3)] := by
   decide
 
 /-! ## A′. slices of the shared document: `append` aliases through spare capacity -/
@@ -333,6 +427,27 @@ theorem table_schedule_independent (σ : State) (tr : Trace) (i : Nat)
   · exact table_acts_clean x.2 hm
   · rw [hc]; simpa [cleanAct] using hn
 
+/-- the code's own footprint: calls made of the table's writes and plain reads of non-cache cells, repeated in any
+    number and order by one goroutine while others do the same: every call returns its first-use verdict -/
+theorem table_concurrent_reuse (σ : State) (tr : Trace) (i : Nat) (cs : List (List Act))
+    (hp : proj i tr = cs.flatten)
+    (hl : LazyInit (tableCfg Gen.sharedWrites) σ) (hco : Coherent (tableCfg Gen.sharedWrites) σ)
+    (h : ∀ x ∈ tr, x.2 ∈ tableActs Gen.sharedWrites ∨
+                   ∃ c, x.2 = .read c ∧ c ∉ (tableCfg Gen.sharedWrites).cache) :
+    readsOf i σ tr = (cs.map (solo σ)).flatten := by
+  have hclean : ∀ a, (a ∈ tableActs Gen.sharedWrites ∨ ∃ c, a = .read c ∧ c ∉ (tableCfg Gen.sharedWrites).cache) →
+      cleanAct (tableCfg Gen.sharedWrites) a = true := by
+    intro a ha
+    rcases ha with hm | ⟨c, hc, hn⟩
+    · exact table_acts_clean a hm
+    · rw [hc]; simpa [cleanAct] using hn
+  have hct : CleanTrace (tableCfg Gen.sharedWrites) tr := fun x hx => hclean x.2 (h x hx)
+  refine concurrent_reuse _ i cs tr σ hp hct ?_ hl hco
+  intro c hc a ha
+  have hmem : a ∈ proj i tr := by rw [hp]; exact List.mem_flatten.mpr ⟨c, hc, ha⟩
+  obtain ⟨x, hx, rfl⟩ := mem_proj i tr a hmem
+  exact hct x hx
+
 /-- Every mutex-guarded store and every sync.Map store reachable from the concurrent entry points is a load-or-publish
     (first writer wins; `LoadOrStore`, not `Store`):
     an unconditional `cache[k] = v` under the lock — the shape `getTypeInfo` had before commit 9118e72 — is not a data
@@ -514,5 +629,48 @@ def busyCase : CaseM :=
 
 example : (caseTrace busyCase).length = 28 ∧ (outcomeOf 4 (caseTrace busyCase)).race = false := by
   decide
+
+/-! ## C′. the case model's traces are schedules; reuse inside a case -/
+
+/-- The trace of EVERY case is a complete interleaving of its goroutines (`IsSchedule`): goroutine `j < g` performs
+    exactly its own operation list `threadActs c j`, in order, and nothing else is in the trace — so `outcome_clean`
+    and the theorems below speak about interleavings of the goroutines' calls, whatever the seed. -/
+theorem case_trace_is_schedule (c : CaseM) :
+    IsSchedule (fun j => if j < c.g then threadActs c j else []) (caseTrace c) :=
+  fun j => caseTrace_proj c j
+
+/-- Reuse in the case model: in every case — any operations, any number of goroutines, any number `per` of calls per
+    goroutine on the one shared document, any interleaving seed — EACH call of each goroutine observes what that call
+    observes alone as the first call on the freshly loaded document. -/
+theorem case_calls_return_first_use_verdicts (c : CaseM) (j : Nat) (hj : j < c.g) :
+    readsOf j sigma0 (caseTrace c) = ((List.range c.per).map (fun r => solo sigma0 (getOp j c.ops (j + r)))).flatten := by
+  have hp : proj j (caseTrace c) = ((List.range c.per).map (fun r => getOp j c.ops (j + r))).flatten := by
+    rw [caseTrace_proj, if_pos hj, threadActs, List.flatMap_def]
+  have hc := caseTrace_clean c
+  have h := concurrent_reuse (caseCfg c) j _ (caseTrace c) sigma0 hp hc ?_ (sigma0_lazy c) (sigma0_coherent c)
+  · rw [h, List.map_map]; rfl
+  · intro call hcall a ha
+    have hmem : a ∈ proj j (caseTrace c) := by rw [hp]; exact List.mem_flatten.mpr ⟨call, hcall, ha⟩
+    obtain ⟨x, hx, rfl⟩ := mem_proj j (caseTrace c) a hmem
+    exact hc x hx
+
+/-- non-vacuity: in `busyCase` goroutine 1 performs two calls on the shared document (a legacy FindRoute, then a
+    ValidateRequest with patterns, arrays and an object default): the observations of the two calls, one after the other -/
+example : readsOf 1 sigma0 (caseTrace busyCase) = [1, 1] ++ [1, 1, 1, 1, 7, 0] ∧
+    (List.range busyCase.per).map (fun r => solo sigma0 (getOp 1 busyCase.ops (1 + r))) = [[1, 1], [1, 1, 1, 1, 7, 0]] := by decide
+
+/-- What a goroutine of a case observes depends on ITS OWN calls only: not on the interleaving seed, not on how many
+    other goroutines run next to it (two cases with the same operations and the same number of calls per goroutine,
+    any seeds, any numbers of goroutines). -/
+theorem case_observations_depend_on_own_calls_only (c c' : CaseM) (hops : c'.ops = c.ops) (hper : c'.per = c.per)
+    (j : Nat) (hj : j < c.g) (hj' : j < c'.g) :
+    readsOf j sigma0 (caseTrace c) = readsOf j sigma0 (caseTrace c') := by
+  rw [case_calls_return_first_use_verdicts c j hj, case_calls_return_first_use_verdicts c' j hj', hops, hper]
+
+/-- instance: another seed and 60 more goroutines change nothing for goroutine 1 of `busyCase` -/
+example : readsOf 1 sigma0 (caseTrace busyCase) = readsOf 1 sigma0 (caseTrace { busyCase with sched := 12345, g := 64 }) := by
+  apply case_observations_depend_on_own_calls_only busyCase { busyCase with sched := 12345, g := 64 } rfl rfl 1
+  · show 1 < 4; omega
+  · show 1 < 64; omega
 
 end KinModel.Conc
